@@ -121,7 +121,10 @@ HasSharable(T) == \E X \in Nodes(T) : X.k \in {"slice", "array", "map"} /\ Alloc
 -----------------------------------------------------------------------------
 (* Well-formedness: what the harness may feed in (random depth-3 terms are *)
 (* produced by the Go side and are admitted only if TLC accepts them).     *)
-IsKeyType(T) == T \in KeyTypeSet \cup {KDStruct, Struct("K2", "local", <<Field("A", KDStruct), Field("B", TString)>>)}
+\* imported key structs whose keys differ only in UNEXPORTED fields (read through reflect + unsafe)
+KXStruct  == Struct("KX", "ext", <<Field("a", TInt)>>)
+KX2Struct == Struct("KX2", "ext", <<Field("A", Basic("bool")), Field("b", TString)>>)
+IsKeyType(T) == T \in KeyTypeSet \cup {KXStruct, KX2Struct, KDStruct, Struct("K2", "local", <<Field("A", KDStruct), Field("B", TString)>>)}
 
 RECURSIVE WF(_, _, _, _)
 \* env: set of struct names in scope; under: TRUE iff directly below ptr/slice/map value
@@ -257,10 +260,26 @@ KDKeyed ==
       ms == {Map(KDStruct, TInt), Map(KDStruct, TString), Map(KDStruct, Slice(TInt)), Map(k2, TInt)} IN
   ms \cup {Ptr(m) : m \in ms} \cup {Slice(m) : m \in ms} \cup {Struct("S2", "local", <<Field("A", m)>>) : m \in ms}
 NoEmbMeth(T) == ~\E X \in Nodes(T) : X.k = "struct" /\ \E i \in DOMAIN X.fields : X.fields[i].emb /\ HasMeth(X.fields[i].t)
+KXKeyed ==
+  LET ms == {Map(KXStruct, TInt), Map(KXStruct, TString), Map(KX2Struct, TInt), Map(KXStruct, Slice(TInt))} IN
+  ms \cup {Ptr(m) : m \in ms} \cup {Slice(m) : m \in ms} \cup {Struct("S2", "local", <<Field("A", m)>>) : m \in ms}
+\* imported structs with several unexported fields of different basic types / sizes
+ExtMulti ==
+  LET B(b) == Basic(b)
+      pairs == { <<"int64", "int8">>, <<"int8", "int64">>, <<"float64", "bool">>, <<"string", "int">>, <<"uint64", "uint8">>, <<"int64", "float64">> }
+      two == UNION {{Struct("S1", "ext", <<Field("a", B(p[1])), Field("b", B(p[2]))>>),
+                     Struct("S1", "ext", <<Field("a", B(p[1])), Field("B", B(p[2]))>>),
+                     Struct("S1", "ext", <<Field("A", B(p[1])), Field("b", B(p[2]))>>)} : p \in pairs}
+      three == {Struct("S1", "ext", <<Field("Name", TString), Field("serial", B("int64")), Field("level", B("int8"))>>),
+                Struct("S1", "ext", <<Field("a", B("float64")), Field("b", B("int8")), Field("c", B("uint8")), Field("d", B("bool"))>>)}
+      all == two \cup three IN
+  all \cup {Ptr(t) : t \in all} \cup {Slice(t) : t \in three} \cup {Map(TInt, t) : t \in three}
+ExtraPlain == KXKeyed \cup ExtMulti      \* no user methods; enumerated with the method types (harness: fixed core)
+
 MethLayer1 == {T \in ConsOver(MethComponents) : NoEmbMeth(T) /\ ~PtrChainToMeth(T)}
 MethTypes(d) ==
-  IF d <= 1 THEN MethLayer1 \cup KDKeyed
-  ELSE MethLayer1 \cup KDKeyed \cup {Ptr(t) : t \in MethLayer1} \cup {Slice(t) : t \in MethLayer1}
+  IF d <= 1 THEN MethLayer1 \cup KDKeyed \cup ExtraPlain
+  ELSE MethLayer1 \cup KDKeyed \cup ExtraPlain \cup {Ptr(t) : t \in MethLayer1} \cup {Slice(t) : t \in MethLayer1}
        \cup {Struct(SNameOver(t), "local", <<Field("A", TInt), Field("b", t)>>) : t \in MethLayer1}
 
 (* short, name-free rendering of the type AT a position (failure classes)  *)
